@@ -31,11 +31,11 @@ def extra(ctx: Ctx) -> None:
     from .grading import cfg_text
 
     rng = random.Random(ctx.seed + 5)
-    plans = [("2", "{30}", "1", "3")] if ctx.tier == "quick" else [("2", "{1, 30}", "2", "3"), ("3", "{1}", "1", "2")]
+    plans = [("2", "{30}", "1", "3")] if ctx.tier == "quick" else [("2", "{1, 11, 30, 43}", "1", "3"), ("3", "{1, 11, 30}", "0", "2")]
     for nblocks, rots, maxp, merged in plans:
         consts = {"NBlocks": nblocks, "RotChoice": rots, "MaxPatched": maxp, "MergedIdx": merged}
         text = cfg_text("Spec", consts, ["Positions", "Shared", "Distinct", "MasterSlave", "Dense", "OrderFree"], constraints=["Emit"])
-        res = run_tlc("Vertices", "vertices.cfg", cfg_text=text, workers=4, timeout=3000)
+        res = run_tlc("Vertices", "vertices.cfg", cfg_text=text, workers=4 if ctx.tier == "quick" else 16, timeout=3000)
         ctx.add_tlc(res)
         cfgs = [r for r in res.records if "pts" in r]
         rng.shuffle(cfgs)
